@@ -31,8 +31,8 @@ HasKey(r, k) == k \in DOMAIN r
 (***************************************************************************)
 NewRun(ev) ==
   LET P == [data |-> ev.data, items |-> ev.items, interp |-> ev.interp, stdin |-> ev.stdin]
-      C == Compile(P)
       L == Load(P)
+      C == Link(Compile(P), L.labels)
       \* why the program must be refused with a diagnostic ("" = it must run)
       refuse == IF ~WellFormed(P, L.labels) THEN "illformed" ELSE IF L.over THEN "over" ELSE ""
   IN [P |-> P, C |-> C, L |-> L, d |-> [Boot(P, C, L.mem) EXCEPT !.phase = "boot"], msg |-> << >>, n |-> ev.n,
@@ -79,7 +79,7 @@ OnCmd(r, ev) ==
       c == IF ev.eof \/ ~have THEN [cls |-> "eof"] ELSE d.stdin[1]
   IN /\ Check(d.phase = "prompt", "prompt", <<"command read in phase", d.phase>>)
      /\ Check(ev.eof = ~have, "prompt", <<"end of input seen", ev.eof, "script lines left", Len(d.stdin)>>)
-     /\ Check(ev.eof \/ ~have \/ ev.raw = d.stdin[1].raw, "prompt", <<"line read", ev.raw>>)
+     /\ Check(ev.eof \/ ~have \/ (ev.raw = d.stdin[1].raw /\ d.stdin[1].cls # "unreadable"), "prompt", <<"line read", ev.raw>>)
      /\ run' = [r EXCEPT !.d = [PromptCmd([d EXCEPT !.phase = "prompt"], c) EXCEPT !.stdin = IF have THEN Tail(d.stdin) ELSE d.stdin]]
 
 OnStep(r, ev) ==
@@ -123,8 +123,20 @@ OnInput(r, ev) ==
       have == d.stdin # << >>
   IN /\ Check(d.phase = "service" /\ ReadsStdin(d.svc[1], d.svc[2]), "int", <<"input consumed in phase", d.phase, d.svc>>)
      /\ Check(ev.eof = ~have, "int", <<"end of input seen", ev.eof, "script lines left", Len(d.stdin)>>)
-     /\ Check(ev.eof \/ ~have \/ ev.raw = d.stdin[1].raw, "int", <<"line consumed", ev.raw>>)
+     /\ Check(ev.eof \/ ~have \/ (ev.raw = d.stdin[1].raw /\ d.stdin[1].cls # "unreadable"), "int", <<"line consumed", ev.raw>>)
      /\ UNCHANGED run
+
+\* a stdin line could not be read as text: it must be the script's next line and be one that is not valid UTF-8
+OnReadErr(r, ev) ==
+  LET d == r.d
+      bad == d.stdin # << >> /\ d.stdin[1].cls = "unreadable"
+  IN IF ev.at = "prompt"
+     THEN /\ Check(d.phase = "prompt", "prompt", <<"read error reported in phase", d.phase>>)
+          /\ Check(bad, "prompt", <<"a readable line was reported as unreadable; script lines left", Len(d.stdin)>>)
+          /\ run' = IF bad THEN [r EXCEPT !.d = [PromptCmd([d EXCEPT !.phase = "prompt"], d.stdin[1]) EXCEPT !.stdin = Tail(d.stdin)]] ELSE r
+     ELSE /\ Check(d.phase = "service" /\ ReadsStdin(d.svc[1], d.svc[2]), "int", <<"read error reported in phase", d.phase>>)
+          /\ Check(bad, "int", <<"a readable line was reported as unreadable; script lines left", Len(d.stdin)>>)
+          /\ UNCHANGED run
 
 OnInt(r, ev) ==
   LET d == r.d
@@ -236,6 +248,7 @@ TraceNext ==
        [] ev.ev = "step"    -> OnStep(run, ev)
        [] ev.ev = "message" -> OnMessage(run, ev)
        [] ev.ev = "input"   -> OnInput(run, ev)
+       [] ev.ev = "readerr" -> OnReadErr(run, ev)
        [] ev.ev = "int"     -> OnInt(run, ev)
        [] ev.ev = "diag"    -> OnDiag(run, ev)
        [] ev.ev = "diagpos" -> OnDiagPos(run, ev)
